@@ -1,277 +1,415 @@
-"""C05 -- duplicate keys are resolved exactly as the merge strategy says."""
+"""C05 -- duplicate keys are resolved exactly as the merge strategy says.
+
+Decided by abstract evaluation (the partitioned dataflow interpreter; no
+execution): the dispatcher _do_merge and one pass of each importer's line
+loop are evaluated on symbolic features for every strategy and for the
+scenarios the property names; what comes back -- returned pair, renamed id,
+merged attribute sets, forced columns, statements executed with their bound
+values -- is compared with what the property prescribes.  The remaining
+clauses are structural: the candidate query as a conjunctive query, the
+constructor's rejection of start/end, and who deletes relations on replace.
+"""
 import ast
+import collections
 
 from .. import sql as S
-from ..cfg import cfg_of
-from ..model import norm, parents, enclosing
-from ..util import require_func, execute_sites, calls_in, call_attr, is_name, const_str, kwarg, single_assignment
+from ..absint import Interp, Sym, Opaque, Unsupported, RaiseEx, AStr
+from ..model import norm, enclosing
+from ..util import require_func, execute_sites, calls_in, call_attr, is_name, const_str, closure
 from .c01 import populate_methods
-from .c02 import feature_loop, schema
+from .c02 import schema
 
 STRATEGIES = ["error", "warning", "replace", "create_unique", "merge"]
+FIXED8 = ["seqid", "source", "featuretype", "start", "end", "score", "strand", "frame"]
 
 
-def strategy_branches(func, var):
-    """{literal: body} for every `if <var> == "<literal>"` in func (if/elif
-    chains included) + the final else body under key None."""
-    out = {}
-    for n in ast.walk(func.node):
-        if isinstance(n, ast.If) and isinstance(n.test, ast.Compare) and len(n.test.ops) == 1 and isinstance(n.test.ops[0], ast.Eq) \
-                and is_name(n.test.left, var) and const_str(n.test.comparators[0]) is not None:
-            out[const_str(n.test.comparators[0])] = n.body
-            if n.orelse and not (len(n.orelse) == 1 and isinstance(n.orelse[0], ast.If)):
-                out.setdefault(None, n.orelse)
-    return out
+def mkfeat(name, id_, attrs, **over):
+    F = Opaque(name, "Feature")
+    base = dict(id=id_, seqid="chr1", source="src", featuretype="exon", start=10, end=20, score=".", strand="+", frame=".",
+                attributes=attrs, extra=[])
+    base.update(over)
+    F.attrs.update(base)
+    return F
 
 
-def _renamed(node, mapping):
-    """Source of `node` with local names renamed (AST-level, not textual)."""
-    import copy
-    n2 = copy.deepcopy(node)
-    for x in ast.walk(n2):
-        if isinstance(x, ast.Name) and x.id in mapping:
-            x.id = mapping[x.id]
-    return norm(n2)
+def _names(vals):
+    return sorted(getattr(v, "name", v) for v in vals)
 
 
-def _strip_wrappers(e):
-    while isinstance(e, ast.Call) and isinstance(e.func, ast.Name) and e.func.id in ("tuple", "list") and len(e.args) == 1:
-        e = e.args[0]
-    return e
-
-
-def _resolve_local(e, func):
-    e = _strip_wrappers(e)
-    if isinstance(e, ast.Name):
-        v = single_assignment(func.node, e.id)
-        if v is not None:
-            return _strip_wrappers(v)
-    return e
-
-
-def r1_r6(ctx):
+# ---------------------------------------------------------------- dispatcher
+def dispatcher(ctx):
     dm = require_func(ctx, "create._DBCreator._do_merge")
     params = [p for p in dm.params if p != "self"]
     ctx.require(len(params) >= 2, "_do_merge signature changed")
     fv, sv = params[0], params[1]
-    br = strategy_branches(dm, sv)
-    for s in STRATEGIES:
-        ctx.ob("R1", s in br, "the dispatcher has a branch for strategy '%s'" % s, func=dm,
-               sig="strategy '%s' %s" % (s, "handled" if s in br else "not handled"), nontrivial=False)
-    extra = [k for k in br if k is not None and k not in STRATEGIES]
-    ctx.ob("R1", not extra, "no undocumented strategy literal is accepted", func=dm, sig="extra strategies %s" % extra, nontrivial=False)
-    # error
-    if "error" in br:
-        ok = any(isinstance(b, ast.Raise) for b in br["error"]) and not any(isinstance(b, ast.Return) for b in br["error"])
-        ctx.ob("R1", ok, "'error' aborts with an exception", func=dm, node=br["error"][0], sig="error -> raise" if ok else "error does not raise")
-    # warning
-    if "warning" in br:
-        rets = [b for b in br["warning"] if isinstance(b, ast.Return)]
-        ok = len(rets) == 1 and isinstance(rets[0].value, ast.Tuple) and len(rets[0].value.elts) == 2 and \
-            isinstance(rets[0].value.elts[0], ast.Constant) and rets[0].value.elts[0].value is None and is_name(rets[0].value.elts[1], sv)
-        ctx.ob("R1", ok, "'warning' hands nothing back to be written (None, strategy)", func=dm, node=br["warning"][0],
-               sig="warning -> %s" % (norm(rets[0].value) if rets else "no return"))
-    if "replace" in br:
-        rets = [b for b in br["replace"] if isinstance(b, ast.Return)]
-        ok = len(rets) == 1 and isinstance(rets[0].value, ast.Tuple) and is_name(rets[0].value.elts[0], fv) and is_name(rets[0].value.elts[1], sv) \
-            and len(br["replace"]) == 1
-        ctx.ob("R1", ok, "'replace' hands back the newcomer unchanged", func=dm, node=br["replace"][0],
-               sig="replace -> %s" % (norm(rets[0].value) if rets else "no return"))
-    if "create_unique" in br:
-        body = br["create_unique"]
-        asg = [b for b in body if isinstance(b, ast.Assign) and norm(b.targets[0]) == "%s.id" % fv]
-        rets = [b for b in body if isinstance(b, ast.Return)]
-        ok = len(asg) == 1 and isinstance(asg[0].value, ast.Call) and call_attr(asg[0].value) == "_increment_featuretype_autoid"
-        base = norm(asg[0].value.args[0]) if ok and asg[0].value.args else None
-        ctx.ob("R6", ok and base == "%s.id" % fv, "'create_unique' numbers the newcomer after the colliding key: <key>_1, <key>_2, ...", func=dm,
-               node=body[0], sig="create_unique id := counter(%s)" % base)
-        ok = len(rets) == 1 and isinstance(rets[0].value, ast.Tuple) and is_name(rets[0].value.elts[0], fv) and is_name(rets[0].value.elts[1], sv)
-        ctx.ob("R1", ok, "'create_unique' hands back the renamed newcomer", func=dm, node=body[0], sig="create_unique -> %s" % (norm(rets[0].value) if rets else None))
-    els = br.get(None)
-    ok = els is not None and any(isinstance(b, ast.Raise) for b in els)
-    ctx.ob("R1", ok, "an unknown strategy is rejected", func=dm, sig="unknown strategy -> raise" if ok else "unknown strategy falls through silently")
-    # every exit of the dispatcher is a raise or a 2-tuple
-    for r in [n for n in ast.walk(dm.node) if isinstance(n, ast.Return)]:
-        ok = isinstance(r.value, ast.Tuple) and len(r.value.elts) == 2
-        ctx.ob("R1", ok, "the dispatcher returns (feature-or-None, final strategy)", node=r, func=dm, sig="dispatcher return %s" % norm(r.value), nontrivial=False)
-    # fall-off-the-end check: last top-level statement chain must end in raise/return on every path
-    cfg = cfg_of(dm)
-    fall = [p for p, l in cfg.pred[cfg.exit.id] if l != "return"]
-    ctx.ob("R1", not fall, "no path leaves the dispatcher without a verdict (implicit None)", func=dm,
-           sig="dispatcher has no fall-through exit" if not fall else "dispatcher can fall off the end (line %s)" % cfg.nodes[fall[0]].lineno)
-    return br, fv, sv
+    v1, v2, v3, v4 = (Sym(n, "str", True) for n in ("v1", "v2", "v3", "v4"))
+
+    def run(strategy, cands, fmf=(), counters=None, fattrs=None, **fover):
+        it = Interp(ctx)
+        so = Opaque("self", "obj")
+        cnt = collections.defaultdict(int)
+        cnt.update(counters or {})
+        so.attrs.update(dict(force_merge_fields=list(fmf), verbose=False, _autoincrements=cnt, default_encoding="utf-8", merge_strategy=strategy))
+        it.summaries["create._DBCreator._candidate_merges"] = lambda interp, pos, kw, node: list(cands)
+        F = mkfeat("F", "K", fattrs if fattrs is not None else {"a": [v1], "b": [v2]}, **fover)
+        try:
+            traces = it.run(dm, {fv: F, sv: strategy}, self_obj=so)
+        except Unsupported as e:
+            ctx.require(False, "_do_merge outside the analysable subset: %s" % e)
+        return F, traces
+
+    def outcome(t):
+        if t.result[0] == "raise":
+            return ("raise", t.result[1])
+        r = t.result[1]
+        if isinstance(r, (tuple, list)) and len(r) == 2:
+            x = r[0]
+            return ("pair", x.name if isinstance(x, Opaque) else x, r[1])
+        return ("other", repr(r))
+
+    def single(strategy, cands, **kw):
+        F, traces = run(strategy, cands, **kw)
+        outs = sorted({outcome(t) for t in traces}, key=repr)
+        # the newcomer as the dispatcher left it (the arguments are copied per evaluation)
+        for t in traces:
+            r = t.result[1] if t.result[0] == "return" else None
+            if isinstance(r, (tuple, list)) and r and isinstance(r[0], Opaque) and r[0].name == "F":
+                F = r[0]
+        return F, traces, outs
+    E = lambda **over: mkfeat("E", "K", {"a": [v1, v3], "c": [v4]}, **over)
+    # ---- R1 the simple strategies
+    F, tr, outs = single("error", [E()])
+    ctx.ob("R1", outs == [("raise", "ValueError")], "'error' aborts with an exception", func=dm, sig="error -> %s" % outs)
+    F, tr, outs = single("warning", [E()])
+    writes = [e for t in tr for e in t.events if e[0] in ("execute", "setattr")]
+    ctx.ob("R1", outs == [("pair", None, "warning")] and not writes, "'warning' hands nothing back to be written (None, strategy) and changes nothing", func=dm,
+           sig="warning -> %s, %d side effects" % (outs, len(writes)))
+    F, tr, outs = single("replace", [E()])
+    changed = [e for t in tr for e in t.events if e[0] in ("execute", "setattr")]
+    ctx.ob("R1", outs == [("pair", "F", "replace")] and not changed, "'replace' hands back the newcomer unchanged", func=dm,
+           sig="replace -> %s, %d side effects" % (outs, len(changed)))
+    F, tr, outs = single("create_unique", [E()])
+    ctx.ob("R1", outs == [("pair", "F", "create_unique")], "'create_unique' hands back the renamed newcomer", func=dm, sig="create_unique -> %s" % outs)
+    ctx.ob("R6", F.attrs.get("id") == "K_1", "'create_unique' numbers the newcomer after the colliding key: <key>_1, <key>_2, ...", func=dm,
+           sig="create_unique: K -> %r" % (F.attrs.get("id"),))
+    F, tr, outs = single("create_unique", [E()], counters={"K": 2})
+    ctx.ob("R6", F.attrs.get("id") == "K_3", "later collisions continue the per-key numbering", func=dm, sig="create_unique with two earlier collisions: K -> %r" % (F.attrs.get("id"),))
+    F, tr, outs = single("bogus", [E()])
+    ctx.ob("R1", outs == [("raise", "ValueError")], "an unknown strategy is rejected", func=dm,
+           sig="unknown strategy -> raise" if outs == [("raise", "ValueError")] else "unknown strategy falls through silently: %s" % outs)
+    # ---- R2 what must agree for a merge
+    F, tr, outs = single("merge", [E()])
+    ctx.ob("R2", outs == [("pair", "E", "merge")], "features whose eight fixed columns agree are merged", func=dm, sig="merge, all columns equal -> %s" % outs)
+    other = {"seqid": "chr2", "source": "other", "featuretype": "gene", "start": 11, "end": 21, "score": "5", "strand": "-", "frame": "1"}
+    for col in FIXED8:
+        F, tr, outs = single("merge", [E(**{col: other[col]})])
+        ok = outs == [("pair", "F", "create_unique")]
+        ctx.ob("R2", ok, "a stored feature differing in `%s` is not merged: the newcomer is filed under a fresh key" % col, func=dm,
+               sig="merge, %s differs -> %s" % (col, outs))
+        if col not in ("start", "end"):
+            F, tr, outs = single("merge", [E(**{col: other[col]})], fmf=[col])
+            ctx.ob("R2", outs == [("pair", "E", "merge")], "`%s` named in force_merge_fields is exempt from the comparison" % col, func=dm,
+                   sig="merge, %s differs but forced -> %s" % (col, outs))
+    # ---- R3 union without repeats / forced columns
+    cand = E()
+    F, tr, outs = single("merge", [cand])
+    got = cand.attrs.get("attributes")
+    want = {"a": ["v1", "v3"], "b": ["v2"], "c": ["v4"]}
+    norm_ = {k: _names(v) for k, v in got.items()} if isinstance(got, dict) else None
+    dup = isinstance(got, dict) and any(len(_names(v)) != len(set(_names(v))) for v in got.values())
+    ctx.ob("R3", norm_ == want and not dup, "merged attributes = union of the newcomer's and the stored feature's values, without repeats, every key of either kept", func=dm,
+           sig="merge {a:[v1], b:[v2]} with stored {a:[v1,v3], c:[v4]} -> %s" % norm_)
+    c1, c2 = mkfeat("E1", "K", {"a": [v3]}), mkfeat("E2", "K_1", {"a": [v4], "b": [v2]})
+    F, tr, outs = single("merge", [c1, c2])
+    merged = [c for c in (c1, c2) if isinstance(c.attrs.get("attributes"), dict) and _names(c.attrs["attributes"].get("a", [])) == ["v1", "v3", "v4"]]
+    ctx.ob("R3", bool(merged) and all(_names(c.attrs["attributes"].get("b", [])) == ["v2"] for c in merged), "with several mergeable candidates the union covers all of them", func=dm,
+           sig="merge with two candidates -> a=%s" % [_names(c.attrs["attributes"].get("a", [])) for c in (c1, c2) if isinstance(c.attrs.get("attributes"), dict)])
+    cand = E(source="other")
+    F, tr, outs = single("merge", [cand], fmf=["source"])
+    ctx.ob("R3", cand.attrs.get("source") == "other,src", "a forced column becomes the comma-joined sorted set of the values seen", func=dm,
+           sig="forced source: stored 'other', newcomer 'src' -> %r" % (cand.attrs.get("source"),))
+    cand = E(source="other,src")
+    F, tr, outs = single("merge", [cand], fmf=["source"])
+    ctx.ob("R3", cand.attrs.get("source") == "other,src",
+           "a forced column stays the set of values seen when a third arrival repeats one of them (the stored value is itself a joined set)", func=dm,
+           sig="forced source: stored 'other,src', newcomer 'src' -> %r" % (cand.attrs.get("source"),),
+           detail="three arrivals with sources a, b, a must leave 'a,b'")
+    cand = E(source="other")
+    F, tr, outs = single("merge", [cand], fmf=[])
+    ctx.ob("R3", cand.attrs.get("source") == "other", "without force_merge_fields no column of the stored feature is touched", func=dm,
+           sig="unforced source stays %r" % (cand.attrs.get("source"),), nontrivial=False)
+    # ---- R4 the no-candidate path: fresh key + duplicates bookkeeping
+    F, tr, outs = single("merge", [E(start=11)])
+    ex = [e for t in tr for e in t.executes()]
+    dups = []
+    for e in ex:
+        try:
+            st = S.parse(e[1] if isinstance(e[1], str) else e[1].render())
+        except S.SQLError:
+            continue
+        if st.verb == "INSERT" and st.table.lower() == "duplicates":
+            cols = [c.lower() for c in (st.columns or ["idspecid", "newid"])]
+            dups.append(dict(zip(cols, e[2])) if isinstance(e[2], (list, tuple)) else None)
+    ctx.ob("R4", len(dups) >= 1, "a non-mergeable newcomer is recorded in `duplicates` (so later arrivals can find it)", func=dm,
+           sig="duplicate bookkeeping present" if dups else "the dispatcher never records a renamed newcomer in `duplicates`")
+    for d in dups[:1]:
+        ok = d == {"idspecid": "K", "newid": "K_1"}
+        ctx.ob("R4", ok, "a non-mergeable newcomer is remembered as (colliding key as it was before the rename, fresh key)", func=dm,
+               sig="duplicates row %s" % d)
+    ctx.ob("R4", F.attrs.get("id") == "K_1" and outs == [("pair", "F", "create_unique")], "...and is filed under a fresh '<key>_n' (create_unique)", func=dm,
+           sig="no-candidate path: %s, id %r" % (outs, F.attrs.get("id")))
+    F, tr, outs = single("merge", [E()])
+    ex = [e for t in tr for e in t.executes()]
+    ctx.ob("R4", not ex, "...exactly when no stored feature agrees on the compared columns (a merge records nothing)", func=dm,
+           sig="merge path executes %d statement(s)" % len(ex), nontrivial=False)
+    ctx.extra["dispatcher_scenarios"] = 30
 
 
-def handler_table(ctx, m, sch):
-    """Decision table of the importer's IntegrityError handler:
-    {final strategy literal: [normalised effects]}."""
-    loop, fv = feature_loop(ctx, m)
-    hs = [h for h in ast.walk(loop) if isinstance(h, ast.ExceptHandler) and h.type is not None and "IntegrityError" in norm(h.type)]
-    ctx.require(len(hs) == 1, "%s: expected one IntegrityError handler in the import loop, found %d" % (m.qual, len(hs)))
-    h = hs[0]
-    disp = [c for c in ast.walk(h) if isinstance(c, ast.Call) and call_attr(c) == "_do_merge"]
-    ctx.require(len(disp) == 1, "%s: handler does not call the dispatcher exactly once" % m.qual)
-    d = disp[0]
-    st = None
-    for p in parents(d):
-        if isinstance(p, ast.Assign):
-            st = p
-            break
-    ctx.require(st is not None and isinstance(st.targets[0], ast.Tuple) and len(st.targets[0].elts) == 2, "%s: dispatcher result not unpacked" % m.qual)
-    fixed, fs = [e.id for e in st.targets[0].elts]
-    ok = len(d.args) >= 2 and is_name(d.args[0], fv) and norm(d.args[1]) == "self.merge_strategy"
-    ctx.ob("R1", ok, "%s: a collision is dispatched on the configured merge_strategy" % m.qual.split(".")[1], node=d, func=m,
-           sig="dispatch %s" % norm(d))
-    sites = {id(s.call): s for s in execute_sites(ctx, [m])}
-    table = {}
-    ren = {fixed: "FIXED", fv: "NEW"}
-    br = {}
-    for n in ast.walk(h):
-        if isinstance(n, ast.If) and isinstance(n.test, ast.Compare) and is_name(n.test.left, fs) and const_str(n.test.comparators[0]) is not None \
-                and isinstance(n.test.ops[0], ast.Eq):
-            br[const_str(n.test.comparators[0])] = n.body
-    for lit, body in br.items():
-        effs = []
-        for b in body:
-            for c in [x for x in ast.walk(b) if isinstance(x, ast.Call)]:
-                if id(c) in sites:
-                    s = sites[id(c)]
-                    stt = s.stmts[0] if s.stmts else None
-                    if stt is None:
-                        effs.append(("sql?", s.sql.text))
-                        continue
-                    sets = stt.sets if stt.verb == "UPDATE" else None
-                    if isinstance(sets, list):
-                        sets = tuple(c_.lower() for c_, _ in sets)
-                    elif isinstance(sets, tuple):
-                        hole = sets[1]
-                        v = single_assignment(m.node, hole) if hole.isidentifier() else None
-                        sets = ("expr", _renamed(v, ren) if v is not None else hole)
-                    params = _resolve_local(s.params, m) if s.params is not None else None
-                    guard = [norm(t) for t, pol in _guards_within(c, body)]
-                    effs.append((stt.verb, stt.table.lower(), sets, S.show(stt.where) if getattr(stt, "where", None) else None,
-                                 _renamed(params, ren) if params is not None else None, tuple(guard)))
-                elif call_attr(c) in ("_replace", "_insert") and isinstance(c.func, ast.Attribute) and is_name(c.func.value, "self"):
-                    effs.append((call_attr(c), _renamed(c.args[0], ren) if c.args else None))
-        table[lit] = effs
-    return h, table, fixed, fs, fv, loop
+# ------------------------------------------------------------------ importers
+def importer_traces(ctx, m, strategy, attrs, fmf=(), merged=None):
+    """One pass of the line loop for a colliding newcomer under `strategy`."""
+    it = Interp(ctx)
+    so = Opaque("self", "obj")
+    so.attrs.update(dict(force_merge_fields=list(fmf), verbose=False, merge_strategy=strategy, transcript_key="transcript_id", gene_key="gene_id",
+                         subfeature="exon", _autoincrements=collections.defaultdict(int), default_encoding="utf-8"))
+    F = mkfeat("F", None, attrs)
+    E = merged if merged is not None else mkfeat("E", "K", {"m": [Sym("merged", "str", True)]}, source="S_E", score="SC_E")
+
+    def s_insert(interp, pos, kw, node):
+        n = getattr(interp.trace, "_inserts", 0) + 1
+        interp.trace._inserts = n
+        if n == 1:
+            raise RaiseEx("IntegrityError", "UNIQUE constraint failed: features.id", node)
+        interp.trace.events.append(("insert", pos[0].attrs.get("id") if isinstance(pos[0], Opaque) else pos[0], node))
+        return None
+
+    def s_merge(interp, pos, kw, node):
+        f_ = pos[0]
+        st = pos[1] if len(pos) > 1 else kw.get("merge_strategy")
+        interp.trace.events.append(("dispatch", f_.name if isinstance(f_, Opaque) else f_, st, node))
+        if st == "error":
+            raise RaiseEx("ValueError", "Duplicate ID", node)
+        if st == "warning":
+            return (None, "warning")
+        if st == "replace":
+            return (f_, "replace")
+        if st == "create_unique":
+            f_.attrs["id"] = "K_1"
+            return (f_, "create_unique")
+        if st == "merge":
+            return (E, "merge")
+        raise RaiseEx("ValueError", "Invalid merge strategy", node)
+
+    def s_replace(interp, pos, kw, node):
+        interp.trace.events.append(("replace", pos[0].name if isinstance(pos[0], Opaque) else pos[0], node))
+
+    def s_json(interp, pos, kw, node):
+        o = Opaque("json", "json")
+        o.attrs["of"] = pos[0]
+        return o
+    it.summaries["create._DBCreator._insert"] = s_insert
+    it.summaries["create._DBCreator._do_merge"] = s_merge
+    it.summaries["create._DBCreator._id_handler"] = lambda i, pos, kw, node: "K"
+    it.summaries["create._DBCreator._replace"] = s_replace
+    it.summaries["helpers._jsonify"] = s_json
+    lines = [p for p in m.params if p != "self"][0]
+    try:
+        traces = it.run(m, {lines: [F]}, self_obj=so)
+    except Unsupported as e:
+        ctx.require(False, "%s outside the analysable subset: %s" % (m.qual, e))
+    return F, E, traces
 
 
-def _guards_within(node, body):
-    out = []
-    child = node
-    for p in parents(node):
-        if any(p is b for b in body):
-            if isinstance(p, ast.If) and any(child is s for s in p.body):
-                out.append((p.test, True))
-            break
-        if isinstance(p, ast.If):
-            out.append((p.test, any(child is s for s in p.body)))
-        child = p
-    return out
+def _effects(ctx, t, E):
+    """(feature effects, relation rows) of a trace after the dispatch."""
+    feats, rels = [], []
+    seen_dispatch = False
+    for e in t.events:
+        if e[0] == "dispatch":
+            seen_dispatch = True
+            continue
+        if not seen_dispatch:
+            continue
+        if e[0] == "insert":
+            feats.append(("INSERT", e[1]))
+        elif e[0] == "replace":
+            feats.append(("REPLACE", e[1]))
+        elif e[0] == "execute":
+            text = e[1] if isinstance(e[1], str) else (e[1].render() if isinstance(e[1], AStr) else str(e[1]))
+            try:
+                st = S.parse(text)
+            except S.SQLError:
+                feats.append(("SQL?", " ".join(text.split())[:60]))
+                continue
+            tab = (st.table or "").lower() if hasattr(st, "table") else ""
+            if st.verb == "INSERT" and tab == "relations":
+                rows = e[2] if e[3] == "executemany" else [e[2]]
+                for r in rows if isinstance(rows, (list, tuple)) else []:
+                    vals = list(r) if isinstance(r, (list, tuple)) else [r]
+                    full = []
+                    k = 0
+                    for v in st.values:
+                        if v[0] == "param":
+                            full.append(getattr(vals[k], "name", vals[k]) if k < len(vals) else "?")
+                            k += 1
+                        else:
+                            full.append(v[1] if v[0] in ("num", "str") else S.show(v))
+                    cols = [c.lower() for c in (st.columns or ["parent", "child", "level"])]
+                    rels.append(tuple(dict(zip(cols, full)).get(c) for c in ("parent", "child", "level")))
+            elif st.verb == "UPDATE" and tab == "features":
+                cols = tuple(c.lower() for c, _v in st.sets) if isinstance(st.sets, list) else ("?",)
+                ps = list(e[2]) if isinstance(e[2], (list, tuple)) else [e[2]]
+                shown = []
+                for p in ps:
+                    if isinstance(p, Opaque) and p.kind == "json":
+                        of = p.attrs.get("of")
+                        shown.append("json(E.attributes)" if of is E.attrs.get("attributes") else "json(%r)" % (of,))
+                    else:
+                        shown.append(getattr(p, "name", p))
+                feats.append(("UPDATE", cols, S.show(st.where), tuple(shown)))
+            elif st.verb in ("INSERT", "UPDATE", "DELETE", "REPLACE"):
+                feats.append((st.verb, tab))
+    return feats, rels
 
 
-def r1_handlers(ctx, sch):
+def importers(ctx, sch):
     meths = populate_methods(ctx)
     ctx.floor("R1", len(meths), 2, "importers with a collision handler")
+    p1, p2 = Sym("p1", "str", True), Sym("p2", "str", True)
     tables = {}
     for m in meths:
         ctx.touch(m)
-        h, table, fixed, fs, fv, loop = handler_table(ctx, m, sch)
-        tables[m.qual] = table
         name = m.qual.split(".")[1]
-        mg = table.get("merge", [])
-        upd = [e for e in mg if e[0] == "UPDATE" and e[1] == "features" and e[2] == ("attributes",)]
-        ok = len(upd) == 1 and upd[0][3] == "id = ?1" and upd[0][4] == "(helpers._jsonify(FIXED.attributes), FIXED.id)"
-        ctx.ob("R3", ok, "%s: after a merge the stored row's attributes become the merged attributes (bound to the merged feature's id)" % name,
-               node=h, func=m, sig="%s merge writes %s" % (name, upd[0][2:5] if upd else "no attributes UPDATE"))
-        forced = [e for e in mg if e[0] == "UPDATE" and e[1] == "features" and e[2] and e[2][0] == "expr"]
-        ok = len(forced) == 1 and "self.force_merge_fields" in forced[0][2][1] and "%s = ?" in forced[0][2][1] and \
-            forced[0][4] is not None and "getattr(FIXED, field) for field in self.force_merge_fields" in forced[0][4] and forced[0][4].endswith("+ [FIXED.id]") \
-            and forced[0][5] == ("self.force_merge_fields",)
-        ctx.ob("R3", ok, "%s: columns named in force_merge_fields are updated to the merged values (exactly those columns, bound in the same order)" % name,
-               node=h, func=m, sig="%s forced-column update %s" % (name, forced[0][2:6] if forced else "missing"))
-        ok = table.get("replace") == [("_replace", "NEW")]
-        ctx.ob("R1", ok, "%s: 'replace' overwrites the stored row with the newcomer" % name, node=h, func=m, sig="%s replace effects %s" % (name, table.get("replace")))
-        ok = table.get("create_unique") == [("_insert", "NEW")]
-        ctx.ob("R1", ok, "%s: 'create_unique' inserts the renamed newcomer" % name, node=h, func=m, sig="%s create_unique effects %s" % (name, table.get("create_unique")))
-        ok = not table.get("warning") and not table.get("error")
-        ctx.ob("R1", ok, "%s: 'warning' writes nothing" % name, node=h, func=m, sig="%s warning effects %s" % (name, table.get("warning")), nontrivial=False)
+        gtf = "GTF" in name
+        attrs = {"transcript_id": [p1], "gene_id": [p2]} if gtf else {"Parent": [p1, p2]}
+        want_rel = (lambda child: sorted([("p1", child, 1), ("p2", child, 2), ("p2", "p1", 1)])) if gtf else (lambda child: sorted([("p1", child, 1), ("p2", child, 1)]))
+        table = {}
+        for strat in STRATEGIES:
+            F, E, traces = importer_traces(ctx, m, strat, dict(attrs), fmf=["source", "score"])
+            disp = [e for t in traces for e in t.events if e[0] == "dispatch"]
+            ok = bool(disp) and all(e[1] == "F" and e[2] == strat for e in disp)
+            ctx.ob("R1", ok, "%s: a collision is dispatched on the configured merge_strategy" % name, func=m,
+                   sig="%s: %s collision dispatched with %s" % (name, strat, sorted({(e[1], e[2]) for e in disp})))
+            effs = []
+            for t in traces:
+                fe, re_ = _effects(ctx, t, E)
+                effs.append((t.result[0] if t.result[0] == "raise" else "ok", tuple(fe), tuple(sorted(re_, key=repr))))
+            # paths differ only in data-dependent relation guards (parent != child): judge the fullest one
+            effs.sort(key=lambda x: -len(x[2]))
+            table[strat] = effs
+            res, fe, rels = effs[0]
+            fes = {e[1] for e in effs}
+            ctx.ob("R1", len(fes) == 1, "%s: the feature writes under '%s' do not depend on anything but the strategy" % (name, strat), func=m,
+                   sig="%s: %s feature effects %s" % (name, strat, "uniform" if len(fes) == 1 else sorted(fes, key=repr)), nontrivial=False)
+            if strat == "error":
+                ctx.ob("R1", res == "raise" and not fe and not rels, "%s: 'error' aborts the import, nothing is written for the newcomer" % name, func=m,
+                       sig="%s: error -> %s, %d writes" % (name, res, len(fe) + len(rels)))
+            elif strat == "warning":
+                ctx.ob("R1", not fe, "%s: 'warning' writes nothing" % name, func=m, sig="%s warning effects %s" % (name, list(fe)), nontrivial=False)
+                leak = any(e[2] for e in effs)
+                ctx.ob("R5", not leak,
+                       "%s: when a colliding newcomer is discarded ('warning': nothing is written for it) none of its Parent/transcript/gene links is inserted" % name,
+                       func=m, sig="%s: relation insert reachable on the discard path of the collision handler" % name if leak else "%s: no relation insert on the discard path" % name)
+            elif strat == "replace":
+                ctx.ob("R1", list(fe) == [("REPLACE", "F")], "%s: 'replace' overwrites the stored row with the newcomer" % name, func=m, sig="%s replace effects %s" % (name, list(fe)))
+            elif strat == "create_unique":
+                ctx.ob("R1", list(fe) == [("INSERT", "K_1")], "%s: 'create_unique' inserts the renamed newcomer" % name, func=m, sig="%s create_unique effects %s" % (name, list(fe)))
+            elif strat == "merge":
+                upd = [e for e in fe if e[0] == "UPDATE" and e[1] == ("attributes",)]
+                ok = len(upd) == 1 and upd[0][2].replace(" ", "") in ("id=?1", "id=?0") and upd[0][3] == ("json(E.attributes)", "K")
+                ctx.ob("R3", ok, "%s: after a merge the stored row's attributes become the merged attributes (bound to the merged feature's id)" % name, func=m,
+                       sig="%s merge writes %s" % (name, upd[0][1:] if upd else "no attributes UPDATE"))
+                forced = [e for e in fe if e[0] == "UPDATE" and e[1] != ("attributes",)]
+                ok = len(forced) == 1 and forced[0][1] == ("source", "score") and forced[0][3] == ("S_E", "SC_E", "K")
+                ctx.ob("R3", ok, "%s: columns named in force_merge_fields are updated to the merged values (exactly those columns, bound in the same order)" % name, func=m,
+                       sig="%s forced-column update %s" % (name, forced[0][1:] if forced else "missing"))
+                other = [e for e in fe if e[0] != "UPDATE"]
+                ctx.ob("R1", not other, "%s: 'merge' writes nothing but the two updates" % name, func=m, sig="%s merge: other effects %s" % (name, other), nontrivial=False)
+            if strat in ("replace", "create_unique", "merge"):
+                child = "K_1" if strat == "create_unique" else "K"
+                ok = sorted(rels, key=repr) == sorted(want_rel(child), key=repr)
+                ctx.ob("R5", ok, "%s: under '%s' the newcomer's links are added under its final id (no Parent link is lost or invented)" % (name, strat), func=m,
+                       sig="%s: relation rows under %s: %s" % (name, strat, sorted(rels, key=repr)), nontrivial=False)
+        # merge without forced fields: no forced-column statement
+        F, E, traces = importer_traces(ctx, m, "merge", dict(attrs), fmf=[])
+        n_forced = 0
+        for t in traces:
+            fe, _r = _effects(ctx, t, E)
+            n_forced += len([e for e in fe if e[0] == "UPDATE" and e[1] != ("attributes",)]) + len([e for e in fe if e[0] == "SQL?"])
+        ctx.ob("R3", n_forced == 0, "%s: without force_merge_fields only the attributes are rewritten" % name, func=m,
+               sig="%s merge without forced fields: %d extra statement(s)" % (name, n_forced), nontrivial=False)
+        tables[m.qual] = {k: sorted({e[1] for e in v}, key=repr) for k, v in table.items()}
     quals = sorted(tables)
     if len(quals) >= 2:
         a, b = tables[quals[0]], tables[quals[1]]
-        same = a == b
         diff = [k for k in set(a) | set(b) if a.get(k) != b.get(k)]
-        ctx.ob("R1", same, "the GFF and the GTF importer resolve collisions alike (equal decision tables: strategy -> effects)",
-               func=ctx.proj.funcs[quals[1]], sig="importer collision tables agree" if same else "importer collision tables differ on %s" % sorted(map(str, diff)),
-               detail=None if same else "%s: %s | %s: %s" % (quals[0], {k: a.get(k) for k in diff}, quals[1], {k: b.get(k) for k in diff}))
+        ctx.ob("R1", not diff, "the GFF and the GTF importer resolve collisions alike (equal decision tables: strategy -> feature effects)",
+               func=ctx.proj.funcs[quals[1]], sig="importer collision tables agree" if not diff else "importer collision tables differ on %s" % sorted(map(str, diff)),
+               detail=None if not diff else "%s: %s | %s: %s" % (quals[0], {k: a.get(k) for k in diff}, quals[1], {k: b.get(k) for k in diff}))
+    # replace: the replaced row's links must be dropped (who deletes)
+    for m in meths:
+        name = m.qual.split(".")[1]
+        pool = closure(ctx, m) + closure(ctx, ctx.proj.method(m.cls, "_update_relations"))
+        dels = []
+        for s in execute_sites(ctx, pool):
+            for st in (s.stmts or []):
+                if st.verb == "DELETE" and st.table.lower() == "relations" and st.where is not None and "child" in S.show(st.where).lower():
+                    dels.append(s)
+        ctx.ob("R5", bool(dels),
+               "%s: when 'replace' overwrites a stored feature, the relations that named the replaced feature as child are removed before the "
+               "newcomer's links are added (inline, in _replace, or in one sweep)" % name, func=m,
+               sig="%s: replace keeps the replaced row's relations (no DELETE FROM relations ... child)" % name if not dels else
+               "%s: replaced row's relations are deleted" % name,
+               detail=None if dels else "children(old parent) still lists the key after its feature was replaced by one with a different Parent")
     # _replace really updates the row with that id
     rp = require_func(ctx, "create._DBCreator._replace")
-    ss = [s for s in execute_sites(ctx, [rp]) if enclosing(s.call, ast.ExceptHandler) is None]
-    ok = len(ss) == 1 and norm(ss[0].call.args[0]) == "constants._UPDATE"
+    ss = [s for s in execute_sites(ctx, closure(ctx, rp)) if enclosing(s.call, ast.ExceptHandler) is None and s.stmts]
+    upd = ctx.folder.const("constants", "_UPDATE")
+    ok = len(ss) >= 1 and all(st.verb == "UPDATE" and st.table.lower() == "features" and st.where is not None and "id" in S.show(st.where).lower() for s in ss for st in s.stmts) \
+        and any(" ".join(s.sql.text.split()) == " ".join(upd.split()) for s in ss)
     ctx.ob("R1", ok, "_replace issues the full-row UPDATE ... WHERE id = ?", func=rp, sig="_replace executes %s" % (norm(ss[0].call.args[0]) if ss else None))
 
 
-def r2_r3_r4(ctx, sch):
-    dm = require_func(ctx, "create._DBCreator._do_merge")
-    gk = ctx.folder.const("constants", "_gffkeys")
-    fixed8 = set(gk[:-1])
-    asg = [n for n in ast.walk(dm.node) if isinstance(n, ast.Assign) and is_name(n.targets[0], "_gffkeys_to_check")]
-    ctx.floor("R2", len(asg), 1, "definitions of the compared column set")
-    v = _strip_wrappers(asg[0].value)
-    ok = False
-    shown = norm(v)
-    if isinstance(v, ast.Call) and call_attr(v) == "difference" and len(v.args) == 1 and norm(v.args[0]) == "self.force_merge_fields":
-        base = v.func.value
-        if isinstance(base, ast.Call) and is_name(base.func, "set") and base.args:
-            folded = ctx.folder.try_fold(base.args[0], dm.module.name, default=None)
-            ok = folded is not None and set(folded) == fixed8
-    ctx.ob("R2", ok, "a merge requires agreement on the eight fixed columns minus force_merge_fields", node=asg[0], func=dm,
-           sig="compared columns := %s" % shown)
-    cmp_ok = False
-    for n in ast.walk(dm.node):
-        if isinstance(n, ast.Compare) and isinstance(n.ops[0], ast.NotEq) and "getattr(" in norm(n.left) and "getattr(" in norm(n.comparators[0]):
-            loop = enclosing(n, ast.For)
-            if loop is not None and is_name(loop.iter, "_gffkeys_to_check"):
-                cmp_ok = True
-    ctx.ob("R2", cmp_ok, "each compared column of the stored feature is compared with the newcomer's", func=dm,
-           sig="column comparison over _gffkeys_to_check" if cmp_ok else "column comparison loop not found")
+# ------------------------------------------------------------ structural rest
+def structural(ctx, sch):
     init = require_func(ctx, "create._DBCreator.__init__")
-    ok = False
-    for n in ast.walk(init.node):
-        if isinstance(n, ast.If) and "merge_strategy == 'merge'" in norm(n.test):
-            for m in ast.walk(n):
-                if isinstance(m, ast.If) and "intersection(force_merge_fields)" in norm(m.test) and any(isinstance(b, ast.Raise) for b in m.body):
-                    lits = {x.value for x in ast.walk(m.test) if isinstance(x, ast.Constant) and isinstance(x.value, str)}
-                    ok = lits == {"start", "end"}
-    ctx.ob("R2", ok, "start/end cannot be forced under 'merge' (rejected at construction)", func=init,
-           sig="start/end in force_merge_fields -> ValueError" if ok else "start/end in force_merge_fields not rejected")
-    # ---- R3 union without repeats
-    sets = [n for n in ast.walk(dm.node) if isinstance(n, ast.Assign) and isinstance(n.targets[0], ast.Subscript)
-            and is_name(n.targets[0].value, "merged_attributes") and isinstance(n.value, ast.Call) and is_name(n.value.func, "list")]
-    ok = any(isinstance(n.value.args[0], ast.Call) and is_name(n.value.args[0].func, "set") for n in sets if n.value.args)
-    alt = [n for n in ast.walk(dm.node) if isinstance(n, ast.Assign) and isinstance(n.targets[0], ast.Subscript)
-           and is_name(n.targets[0].value, "merged_attributes") and "set(" in norm(n.value)]
-    ctx.ob("R3", ok or bool([a for a in alt if "sorted(set(" in norm(a.value)]), "merged attribute values are de-duplicated (set) before they are stored", func=dm,
-           sig="merged values := %s" % (norm(sets[0].value) if sets else norm(alt[0].value) if alt else "not de-duplicated"))
-    ext = [c for c in calls_in(dm.node) if call_attr(c) == "extend" and c.args and norm(c.args[0]).startswith("existing_feature[")]
-    seed = [n for n in ast.walk(dm.node) if isinstance(n, ast.Assign) and is_name(n.targets[0], "merged_attributes")]
-    ok = bool(ext) and bool(seed) and norm(seed[0].value) in ("copy.deepcopy(f.attributes)", "copy.deepcopy(f.attributes._d)")
-    ctx.ob("R3", ok, "the union starts from a copy of the newcomer's attributes and is extended by every matching stored feature's values", func=dm,
-           sig="merge union seed %s, extended by %s" % (norm(seed[0].value) if seed else None, norm(ext[0].args[0]) if ext else None))
-    ff = [n for n in ast.walk(dm.node) if isinstance(n, ast.Call) and is_name(n.func, "setattr") and len(n.args) == 3]
-    ok = bool(ff) and norm(ff[0].args[2]) in ("','.join(sorted(map(str, v)))",)
-    ctx.ob("R3", ok, "a forced column becomes the comma-joined sorted set of the values seen", func=dm,
-           sig="forced column := %s" % (norm(ff[0].args[2]) if ff else None))
-    fin = [n for n in ast.walk(dm.node) if isinstance(n, ast.Assign) and is_name(n.targets[0], "final_fields")]
-    ok = bool(fin) and "set([getattr(f, field)])" in norm(fin[0].value) and "self.force_merge_fields" in norm(fin[0].value)
-    upd = [c for c in calls_in(dm.node) if call_attr(c) == "update" and norm(c.func.value) == "final_fields[field]"
-           and c.args and norm(c.args[0]) == "[getattr(existing_feature, field)]"]
-    ctx.ob("R3", ok and bool(upd), "the forced-column sets collect the newcomer's and every merged feature's value", func=dm,
-           sig="forced-column sets seeded from f and updated from existing_feature" if ok and upd else "forced-column value collection changed")
-    # ---- R4 candidates + duplicates bookkeeping
+    # start/end cannot be forced under merge: abstract evaluation of the constructor's validation
+    outs = {}
+    for fmf in (["start"], ["end"], ["source", "end"], ["source"]):
+        for strat in ("merge", "create_unique"):
+            it = Interp(ctx)
+            try:
+                traces = it.run(init, {"data": Sym("data", "any", True), "dbfn": Sym("dbfn", "str", True), "merge_strategy": strat, "force_merge_fields": list(fmf)},
+                                self_obj=Opaque("self", "obj"))
+            except Unsupported:
+                traces = None
+            if traces is None:
+                outs = None
+                break
+            outs[(tuple(fmf), strat)] = sorted({t.result[1] if t.result[0] == "raise" else "ok" for t in traces})
+        if outs is None:
+            break
+    if outs is not None:
+        ok = all(("ValueError" in v and len(v) == 1) == (k[1] == "merge" and bool({"start", "end"} & set(k[0]))) for k, v in outs.items())
+        ctx.ob("R2", ok, "start/end cannot be forced under 'merge' (rejected at construction)", func=init,
+               sig="start/end in force_merge_fields -> ValueError" if ok else "start/end in force_merge_fields not rejected: %s" % outs)
+    else:
+        ok = False
+        for n in ast.walk(init.node):
+            if isinstance(n, ast.If) and any(isinstance(b, ast.Raise) for b in n.body):
+                lits = {x.value for x in ast.walk(n.test) if isinstance(x, ast.Constant) and isinstance(x.value, str)}
+                if {"start", "end"} <= lits and "force_merge_fields" in norm(n.test):
+                    ok = True
+        ctx.ob("R2", ok, "start/end cannot be forced under 'merge' (rejected at construction)", func=init,
+               sig="start/end in force_merge_fields -> ValueError" if ok else "start/end in force_merge_fields not rejected")
+    # candidates
+    from ..flow import Flow, show
     cm = require_func(ctx, "create._DBCreator._candidate_merges")
-    sel = [s for s in execute_sites(ctx, [cm]) if s.stmts and s.stmts[0].verb == "SELECT"]
+    pool = closure(ctx, cm)
+    fl = Flow(ctx, pool)
+    fparam = [p for p in cm.params if p != "self"][0]
+    KEY = ("attr", ("param", cm.qual, fparam), "id")
+    sel = [s for s in execute_sites(ctx, pool) if s.stmts and s.stmts[0].verb == "SELECT" and "duplicates" in s.stmts[0].tables() + [t_ for t_ in _tables(s.stmts[0])]]
     ctx.floor("R4", len(sel), 1, "candidate queries")
     spec = S.to_cq(S.parse("SELECT f.id FROM features f JOIN duplicates d ON d.newid = f.id WHERE d.idspecid = :key"), sch)
     got = S.to_cq(sel[0].stmts[0], sch, {0: "key"})
@@ -279,199 +417,51 @@ def r2_r3_r4(ctx, sch):
     g2 = copy.copy(got)
     g2.proj = [t for t in got.proj if t[2] == "id"][:1]
     eq = S.cq_equivalent(g2, spec)
-    ctx.ob("R4", eq, "merge candidates = features recorded in `duplicates` under the colliding key (D.newid = F.id, D.idspecid = key)", node=sel[0].call, func=cm,
+    ctx.ob("R4", eq, "merge candidates = features recorded in `duplicates` under the colliding key (D.newid = F.id, D.idspecid = key)", node=sel[0].call, func=sel[0].func,
            sig="candidate query ≅ specification" if eq else "candidate query differs: " + got.describe())
-    okp = isinstance(sel[0].params, ast.Tuple) and [norm(e) for e in sel[0].params.elts] == ["f.id"]
-    ctx.ob("R4", okp, "the candidate query is bound to the colliding key", node=sel[0].call, func=cm, sig="candidate query bound to %s" % norm(sel[0].params))
-    first = [n for n in ast.walk(cm.node) if isinstance(n, ast.Assign) and is_name(n.targets[0], "candidates")]
-    ok = bool(first) and norm(first[0].value) == "[self._get_feature(f.id)]"
-    ctx.ob("R4", ok, "the feature stored under the key itself is a candidate", func=cm, sig="candidates start with %s" % (norm(first[0].value) if first else None))
-    ad = [c for c in calls_in(dm.node) if call_attr(c) == "_add_duplicate"]
-    ctx.ob("R4", len(ad) >= 1, "a non-mergeable newcomer is recorded in `duplicates` (so later arrivals can find it)", func=dm,
-           sig="duplicate bookkeeping present" if ad else "the dispatcher never records a renamed newcomer in `duplicates`")
-    dcfg = cfg_of(dm)
-    for c in ad:
-        a0 = _resolve_local(c.args[0], dm) if c.args else None
-        # the colliding key must be captured BEFORE the recursive create_unique dispatch renames the feature in place
-        renames = [x for x in calls_in(dm.node) if call_attr(x) == "_do_merge"]
-        captured = False
-        if c.args and isinstance(c.args[0], ast.Name):
-            asg = [n for n in ast.walk(dm.node) if isinstance(n, ast.Assign) and is_name(n.targets[0], c.args[0].id)]
-            captured = len(asg) == 1 and norm(asg[0].value) == "f.id" and renames and all(
-                dcfg.dominates(dcfg.node_for(asg[0]).id, dcfg.node_for(x).id) and dcfg.node_for(asg[0]).id != dcfg.node_for(x).id for x in renames)
-        ctx.ob("R4", captured, "the colliding key recorded in `duplicates` is the key as it was before the newcomer was renamed", node=c, func=dm,
-               sig="colliding key captured before the rename" if captured else "colliding key read after (or without) the rename: _add_duplicate(%s, ...)" % (norm(c.args[0]) if c.args else "?"))
-        ok = len(c.args) == 2 and a0 is not None and norm(a0) == "f.id" and norm(c.args[1]).endswith(".id") and norm(c.args[1]) != "f.id"
-        # a0 must be read BEFORE the rename: the local must be assigned before the recursive create_unique call
-        ctx.ob("R4", ok, "a non-mergeable newcomer is remembered as (colliding key, fresh key)", node=c, func=dm,
-               sig="_add_duplicate(%s, %s)" % (norm(a0) if a0 is not None else None, norm(c.args[1]) if len(c.args) > 1 else None))
-        guard = [norm(t) for t, pol in __import__("gffsa.util", fromlist=["guards_of"]).guards_of(c, dm.node) if pol]
-        ctx.ob("R4", any("len(features_to_merge) == 0" in g for g in guard), "...exactly when no stored feature agrees on the compared columns", node=c, func=dm,
-               sig="_add_duplicate guarded by %s" % guard, nontrivial=False)
-        rec = [x for x in calls_in(dm.node) if call_attr(x) == "_do_merge" and (const_str(kwarg(x, "merge_strategy") or ast.Constant(value=None)) == "create_unique"
-                                                                              or (len(x.args) > 1 and const_str(x.args[1]) == "create_unique"))]
-        ctx.ob("R4", bool(rec), "...and is filed under a fresh '<key>_n' (create_unique)", node=c, func=dm,
-               sig="no-candidate path re-dispatches with create_unique" if rec else "no-candidate path does not rename the newcomer")
+    pt = fl.terms(sel[0].params, sel[0].func) if sel[0].params is not None else set()
+    okp = pt in ({("op", "tuple", KEY)}, {("op", "list", KEY)})
+    ctx.ob("R4", okp, "the candidate query is bound to the colliding key", node=sel[0].call, func=sel[0].func, sig="candidate query bound to %s" % ", ".join(sorted(show(t) for t in pt)))
+    gets = [c for g in pool for c in calls_in(g.node) if call_attr(c) == "_get_feature" and c.args and fl.terms(c.args[0], g) == {KEY}]
+    ctx.ob("R4", bool(gets), "the feature stored under the key itself is a candidate", func=cm, sig="candidates include _get_feature(f.id)" if gets else "the feature stored under the key is not fetched")
     adf = require_func(ctx, "create._DBCreator._add_duplicate")
-    ins = [s for s in execute_sites(ctx, [adf]) if s.stmts and s.stmts[0].verb == "INSERT" and enclosing(s.call, ast.ExceptHandler) is None]
+    from .. import sqlbind
+    ins = [s for s in execute_sites(ctx, closure(ctx, adf)) if s.stmts and s.stmts[0].verb == "INSERT" and enclosing(s.call, ast.ExceptHandler) is None]
     ctx.floor("R4", len(ins), 1, "INSERT INTO duplicates sites")
-    st = ins[0].stmts[0]
-    cols = [c.lower() for c in (st.columns or sch["duplicates"]["columns"])]
-    vals = [norm(e) for e in ins[0].params.elts] if isinstance(ins[0].params, ast.Tuple) else []
-    ok = st.table.lower() == "duplicates" and cols == vals == ["idspecid", "newid"] and adf.params[1:3] == ["idspecid", "newid"]
-    ctx.ob("R4", ok, "the duplicates row is (idspecid, newid) in that order", node=ins[0].call, func=adf, sig="duplicates row %s -> %s" % (vals, cols))
+    flad = Flow(ctx, closure(ctx, adf))
+    for s in ins:
+        try:
+            rows = sqlbind.bound_rows(s, sch, s.func)
+        except sqlbind.Unbound as e:
+            ctx.ob("R4", False, "the duplicates row is bound to determinable values", node=s.call, func=s.func, sig="duplicates insert: %s" % e)
+            continue
+        for bind, _l in rows:
+            got_ = {k: sorted(show(t) for t in flad.terms(v, s.func)) for k, v in bind.items() if isinstance(k, str) and not isinstance(v, tuple)}
+            ok = s.stmts[0].table.lower() == "duplicates" and got_ == {"idspecid": [adf.params[1]], "newid": [adf.params[2]]} and adf.params[1:3] == ["idspecid", "newid"]
+            ctx.ob("R4", ok, "the duplicates row is (idspecid, newid) in that order", node=s.call, func=s.func, sig="duplicates row %s" % got_)
 
 
-class _Walk:
-    """Structured walk of statements under a partial environment
-    {final strategy, fixed is None}: unknown tests fork.  Collects whether a
-    target node can be executed and how the block can end."""
-
-    def __init__(self, env, targets):
-        self.env, self.targets = env, targets
-        self.hit = False
-
-    def test(self, t):
-        e = self.env
-        if isinstance(t, ast.Compare) and len(t.ops) == 1:
-            l, r = t.left, t.comparators[0]
-            if is_name(l, e["fs_name"]) and const_str(r) is not None:
-                v = e["fs"] == const_str(r)
-                return v if isinstance(t.ops[0], ast.Eq) else (not v) if isinstance(t.ops[0], ast.NotEq) else None
-            if is_name(l, e["fs_name"]) and isinstance(t.ops[0], (ast.In, ast.NotIn)) and isinstance(r, (ast.Tuple, ast.List, ast.Set)):
-                v = e["fs"] in [const_str(x) for x in r.elts]
-                return v if isinstance(t.ops[0], ast.In) else not v
-            if is_name(l, e["fixed_name"]) and isinstance(r, ast.Constant) and r.value is None:
-                v = e["fixed_none"]
-                return v if isinstance(t.ops[0], (ast.Is, ast.Eq)) else not v
-        if is_name(t, e["fixed_name"]):
-            return not e["fixed_none"]
-        if isinstance(t, ast.UnaryOp) and isinstance(t.op, ast.Not):
-            v = self.test(t.operand)
-            return None if v is None else not v
-        if isinstance(t, ast.BoolOp):
-            vs = [self.test(v) for v in t.values]
-            if isinstance(t.op, ast.And):
-                if any(v is False for v in vs):
-                    return False
-                return True if all(v is True for v in vs) else None
-            if any(v is True for v in vs):
-                return True
-            return False if all(v is False for v in vs) else None
-        return None
-
-    def block(self, stmts):
-        """-> set of endings: 'fall', 'continue', 'break', 'raise', 'return'"""
-        ends = {"fall"}
-        for st in stmts:
-            if "fall" not in ends:
-                break
-            ends.discard("fall")
-            ends |= self.stmt(st)
-        return ends
-
-    def stmt(self, st):
-        if any(st is t or any(x is t for x in ast.walk(st)) for t in self.targets) and not isinstance(st, (ast.If, ast.For, ast.While, ast.Try, ast.With)):
-            self.hit = True
-        if isinstance(st, ast.If):
-            v = self.test(st.test)
-            out = set()
-            if v is not False:
-                out |= self.block(st.body)
-            if v is not True:
-                out |= self.block(st.orelse) if st.orelse else {"fall"}
-            return out
-        if isinstance(st, (ast.For, ast.While)):
-            inner = self.block(st.body)
-            out = {"fall"}
-            out |= {x for x in inner if x in ("raise", "return")}
-            return out
-        if isinstance(st, ast.With):
-            return self.block(st.body)
-        if isinstance(st, ast.Try):
-            out = self.block(st.body)
-            for h in st.handlers:
-                out |= self.block(h.body)
-            return out
-        if isinstance(st, ast.Continue):
-            return {"continue"}
-        if isinstance(st, ast.Break):
-            return {"break"}
-        if isinstance(st, ast.Raise):
-            return {"raise"}
-        if isinstance(st, ast.Return):
-            return {"return"}
-        return {"fall"}
-
-
-def r5(ctx, sch):
-    for m in populate_methods(ctx):
-        name = m.qual.split(".")[1]
-        h, table, fixed, fs, fv, loop = handler_table(ctx, m, sch)
-        rel = [s for s in execute_sites(ctx, [m]) if s.stmts and s.stmts[0].verb == "INSERT" and s.stmts[0].table.lower() == "relations"]
-        ctx.floor("R5", len(rel), 1, "relation inserts in %s" % name)
-        # statements of the loop body after the try that holds the handler
-        tr = None
-        for p in parents(h):
-            if isinstance(p, ast.Try):
-                tr = p
-                break
-        top = None
-        for p in [tr] + list(parents(tr)):
-            if any(p is b for b in loop.body):
-                top = p
-                break
-        ctx.require(top is not None, "%s: collision handler is not in the import loop body" % m.qual)
-        rest = loop.body[loop.body.index(top) + 1:]
-        env = {"fs_name": fs, "fixed_name": fixed, "fs": "warning", "fixed_none": True}
-        w = _Walk(env, [s.call for s in rel])
-        # the part of the handler after the dispatcher call
-        ends = w.block(h.body)
-        leak = False
-        if "fall" in ends:
-            w.block(rest)
-            leak = w.hit
-        ctx.ob("R5", not leak,
-               "%s: when a colliding newcomer is discarded ('warning': nothing is written for it) none of its Parent/transcript/gene links is "
-               "inserted" % name, node=h, func=m,
-               sig="%s: relation insert reachable on the discard path of the collision handler" % name if leak else
-               "%s: no relation insert on the discard path" % name,
-               detail=None if not leak else "with final_strategy == 'warning' the handler falls out without writing; control then reaches the "
-                                            "relation INSERT at line %d, which links the *kept* feature's id to the ignored line's parents" % min(s.call.lineno for s in rel))
-        # and the kept strategies still reach it (no link is lost)
-        for strat in ("merge", "replace", "create_unique"):
-            env2 = {"fs_name": fs, "fixed_name": fixed, "fs": strat, "fixed_none": False}
-            w2 = _Walk(env2, [s.call for s in rel])
-            e2 = w2.block(h.body)
-            if "fall" in e2:
-                w2.block(rest)
-            ctx.ob("R5", w2.hit, "%s: under '%s' the newcomer's links are still added (no Parent link is lost)" % (name, strat), node=h, func=m,
-                   sig="%s: relation insert reached under %s" % (name, strat) if w2.hit else "%s: relation insert skipped under %s" % (name, strat), nontrivial=False)
-        # replace: the replaced row's links must be dropped
-        pool = [m, ctx.proj.func("create._DBCreator._replace")]
-        dels = []
-        for s in execute_sites(ctx, pool + [ctx.proj.method(m.cls, "_update_relations")]):
-            for st in (s.stmts or []):
-                if st.verb == "DELETE" and st.table.lower() == "relations" and st.where is not None and "child" in S.show(st.where).lower():
-                    dels.append(s)
-        ctx.ob("R5", bool(dels),
-               "%s: when 'replace' overwrites a stored feature, the relations that named the replaced feature as child are removed before the "
-               "newcomer's links are added (inline, in _replace, or in one sweep)" % name, node=h, func=m,
-               sig="%s: replace keeps the replaced row's relations (no DELETE FROM relations ... child)" % name if not dels else
-               "%s: replaced row's relations are deleted" % name,
-               detail=None if dels else "children(old parent) still lists the key after its feature was replaced by one with a different Parent")
+def _tables(st):
+    out = []
+    try:
+        for ref, _on in [(st.source, None)] + list(st.joins):
+            if ref is not None and ref[0] == "table":
+                out.append(ref[1].lower())
+    except AttributeError:
+        pass
+    return out
 
 
 def check(ctx):
     ctx.explanation = (
-        "Order-sensitive decision tables: the dispatcher's strategy cascade (literal -> raise / (None|feature, strategy) / renamed id) and "
-        "the IntegrityError handler of each importer (final strategy -> set of effects: SQL verb, table, assigned columns, WHERE, bound "
-        "values, helper called); the GFF and GTF tables must be equal. Merge specifics are def-use facts (compared column set folds to the "
-        "eight fixed columns minus force_merge_fields; de-duplication through set; forced columns comma-joined) plus a conjunctive-query "
-        "comparison of the candidate query. R5 is a CFG reachability rule on the discard path and a who-deletes rule for 'replace'. Does "
-        "not decide the outcome for every interleaving of collisions (history-dependent data).")
+        "Decision tables obtained by abstract evaluation (partitioned dataflow, no execution): _do_merge is evaluated on symbolic features for "
+        "every strategy and for the scenarios the property names (each fixed column differing, forced or not; overlapping attribute sets; several "
+        "candidates; a stored forced column that is already a joined set; the no-candidate path with its duplicates row); one pass of each "
+        "importer's line loop is evaluated for a colliding newcomer under every strategy and the statements it executes, with their bound values, "
+        "are compared with the prescribed effects (the GFF and GTF tables must be equal; discarded newcomers write no relations, kept ones all of "
+        "theirs under the final id). Structural: candidate query as a conjunctive query, constructor validation, who deletes relations on "
+        "'replace'. Does not decide the outcome for every interleaving of collisions (history-dependent data).")
     sch = schema(ctx)
-    r1_r6(ctx)
-    r1_handlers(ctx, sch)
-    r2_r3_r4(ctx, sch)
-    r5(ctx, sch)
+    dispatcher(ctx)
+    importers(ctx, sch)
+    structural(ctx, sch)
